@@ -62,3 +62,10 @@ register(Prop(
     trusted=COMMON_TRUSTED + [
         "regenerated facts: defaultQueueSize, Ack's accepted types, Acked's release set (sessions/*.go)",
     ]))
+
+
+# per-core registrations live in props_<core>.py next to this file
+import importlib, pkgutil, os as _os
+for _m in sorted(pkgutil.iter_modules([_os.path.dirname(__file__)]), key=lambda m: m.name):
+    if _m.name.startswith('props_'):
+        importlib.import_module('vcheck.' + _m.name)
